@@ -102,6 +102,9 @@ func init() {
 		if p.Level >= 0 {
 			ss = readerStreams(p.Level)
 		}
+		if p.Level == -3 {
+			ss = finalOpStreams()
+		}
 		for _, s := range ss {
 			if s.Name == p.Stream {
 				c09Reader(r, s, p)
@@ -648,6 +651,22 @@ func runC09(r *core.Run) {
 				if !wd {
 					jobs = append(jobs, job{s: s, rd: &C09R{Stream: s.Name, Level: -2, FailAt: k, Buf: 16384, Once: true}})
 				}
+			}
+		}
+	}
+	// streams ending in each kind of LZMA operation: the last source bytes are consumed by different
+	// decoding steps (every second variant in the quick tier)
+	fin := finalOpStreams()
+	for i := range fin {
+		s := &fin[i]
+		if !thorough(r) && !strings.HasSuffix(s.Name, "v0") && !strings.HasSuffix(s.Name, "v3") {
+			continue
+		}
+		for k := 13; k <= len(s.Data); k++ {
+			jobs = append(jobs, job{s: s, rd: &C09R{Stream: s.Name, Level: -3, FailAt: k, Buf: 4096}})
+			jobs = append(jobs, job{s: s, rd: &C09R{Stream: s.Name, Level: -3, FailAt: k, Buf: 4096, Once: true}})
+			if k > len(s.Data)-12 {
+				jobs = append(jobs, job{s: s, rd: &C09R{Stream: s.Name, Level: -3, FailAt: k, WithData: true, Buf: 1}})
 			}
 		}
 	}
